@@ -26,7 +26,7 @@ ONE_S = 1000000
 
 def plan(tier, seed):
     if tier == 'quick':
-        return [{'n': 14, 'len': [30, 160]} for _ in range(16)]
+        return [{'n': 45, 'len': [30, 160]} for _ in range(16)]
     return [{'n': 400, 'len': [30, 400]} for _ in range(64)]
 
 
